@@ -425,7 +425,7 @@ func (s *Sched) nextChoice(n int, env bool, curEnabled bool, tid int) int {
 	c := 0
 	if i < len(s.prefix) {
 		p := s.prefix[i]
-		if p.N != n || p.Env != env {
+		if (p.N != n && !(p.N == 255 && n > 255)) || p.Env != env {
 			if s.Diverged == "" {
 				s.Diverged = fmt.Sprintf("choice %d: recorded n=%d env=%v, now n=%d env=%v", i, p.N, p.Env, n, env)
 			}
